@@ -155,6 +155,38 @@ Proof.
     + unfold arg_axes; cbn. auto.
 Qed.
 
+Lemma nth_firstn_lt {A} (l : list A) n i d : i < n -> nth i (firstn n l) d = nth i l d.
+Proof. revert n i. induction l as [|x l IH]; intros [|n] [|i] H; cbn; auto; try lia. apply IH. lia. Qed.
+Lemma nth_skipn_add {A} (l : list A) n i d : nth i (skipn n l) d = nth (n + i) l d.
+Proof. revert l. induction n as [|n IH]; intros [|x l]; cbn; auto. destruct i; reflexivity. Qed.
+
+(* ImageBatch.narrow(0, start, length): the grids are narrowed like the data *)
+Theorem narrow_method_batch_sound fl sh gs st len :
+  wf_val gshape (mkT sh (TBatch fl gs)) ->
+  res_sound gshape [mkT sh (TBatch fl gs)] (run_op gshape gaxes (ONarrowM 0%Z st len) [mkT sh (TBatch fl gs)]).
+Proof.
+  intros Hwf. unfold run_op; cbn [nth t_kind t_shape data_sem nth_shape Z.eqb].
+  unfold wf_val in Hwf; cbn [t_kind t_shape] in Hwf. destruct Hwf as (HL & H4 & HF).
+  destruct sh as [|n s']; [unfold ndim in H4; cbn in H4; lia|]. cbn [nent] in HL.
+  assert (Hn : norm_dim (ndim (n :: s')) 0 = Some 0).
+  { unfold norm_dim, ndim. cbn [length]. destruct ((0 <=? 0)%Z && (0 <? Z.of_nat (S (length s')))%Z) eqn:E; [reflexivity|].
+    apply andb_false_iff in E. destruct E as [E|E]; [discriminate|]. apply Z.ltb_ge in E. lia. }
+  rewrite Hn. cbn [nth Nat.eqb].
+  destruct (st + len <=? n) eqn:El; [|exact I]. apply Nat.leb_le in El.
+  unfold one_kind. cbn [d_shape d_src set_nth firstn skipn app].
+  destruct (make_instance gshape fl (len :: s') (py_slice gs st (st + len))) as [er|k] eqn:EK; [exact I|].
+  apply make_instance_ok in EK. destruct EK as (fl' & -> & H4' & HF' & Hax).
+  assert (Hlen : length (py_slice gs st (st + len)) = len).
+  { unfold py_slice. rewrite firstn_length, skipn_length. lia. }
+  unfold res_sound, out_sound; cbn [v_kind v_shape v_src val_of].
+  split; [unfold wf_val, val_of; cbn [t_kind t_shape nent v_shape v_kind]; repeat split; auto|].
+  intros i Hi. rewrite Hlen in Hi. rewrite nth_map_seq by exact Hi. cbn [Nat.add].
+  split; [apply coherent_single|]. split.
+  - exists (0, st + i). split; [left; reflexivity|]. unfold entry_grid; cbn.
+    unfold py_slice. rewrite nth_firstn_lt by lia. rewrite nth_skipn_add. apply nth_error_nth'. lia.
+  - intros ax Hfl. exists (0, st + i). split; [left; reflexivity|]. unfold arg_axes; cbn. auto.
+Qed.
+
 (* deep copies and pickling preserve type, grids and axes for every class; copy.copy for image classes *)
 Theorem copy_preserves c v :
   (c = CCopy -> kind_axes (t_kind v) = None) ->
